@@ -168,6 +168,67 @@ def main():
             else:
                 harness_errors.append(res)
 
+    # ---------------- coverage-guided campaigns (atheris / libFuzzer) ------------
+    fuzz_info = {}
+    fuzz_units = getattr(mod, "FUZZ_UNITS", {}).get(args.tier, []) if not args.units else []
+    if fuzz_units:
+        import shutil
+        import subprocess
+        import tempfile
+        deps = os.path.join(VERIF, ".deps")
+        have = True
+        try:
+            sys.path.append(deps)
+            import atheris  # noqa: F401
+        except Exception:
+            have = False
+            fuzz_info["unavailable"] = "atheris not importable (run ./setup.sh)"
+        if have:
+            nproc, runs, max_time = (4, 6000, 60) if args.tier == "quick" else (16, 60000, 900)
+            tmp = tempfile.mkdtemp(prefix="bctfuzz_")
+            try:
+                procs = []
+                for ui_, uname in enumerate(fuzz_units):
+                    for k in range(nproc):
+                        out = os.path.join(tmp, "u%d_%d" % (ui_, k))
+                        cmd = [sys.executable, "-m", "bctverif.fuzz", pid, uname, "--runs", str(runs), "--seed", str(verif_seed * 1000 + k + 1),
+                               "--out", out, "--max-time", str(max_time)]
+                        procs.append((uname, out, subprocess.Popen(cmd, cwd=VERIF, stdout=subprocess.DEVNULL, stderr=subprocess.DEVNULL)))
+                for uname, out, pr in procs:
+                    try:
+                        pr.wait(timeout=max_time + 120)
+                    except subprocess.TimeoutExpired:
+                        pr.kill()
+                    fi = fuzz_info.setdefault(uname, {"processes": 0, "libfuzzer_runs_requested": 0, "evaluations": 0, "_h": set(), "wall_s": 0.0, "failures": 0})
+                    fi["processes"] += 1
+                    fi["libfuzzer_runs_requested"] += runs
+                    sp = os.path.join(out, "stats.json")
+                    if os.path.exists(sp):
+                        with open(sp) as fh:
+                            stt = json.load(fh)
+                        fi["evaluations"] += stt["evaluations"]
+                        fi["_h"] |= set(stt["nontrivial"])
+                        fi["wall_s"] = round(fi["wall_s"] + stt["wall_s"], 1)
+                        results.append({"unit": uname + "[coverage-guided]", "evaluations": stt["evaluations"], "calls": stt["calls"],
+                                        "hook_events": 0, "nontrivial": set(stt["nontrivial"]), "classes": Counter(), "rejections": Counter(),
+                                        "timeouts": Counter(stt["timeouts"]), "crashes": Counter(), "kf_hits": Counter(stt["kf_hits"]),
+                                        "notes": Counter(), "samples": stt.get("samples", [])[:1], "failures": [], "wall_s": stt["wall_s"]})
+                    fp = os.path.join(out, "failure.json")
+                    if os.path.exists(fp):
+                        with open(fp) as fh:
+                            frec = json.load(fh)
+                        fi["failures"] += 1
+                        results.append({"unit": uname, "evaluations": 0, "calls": 0, "hook_events": 0, "nontrivial": set(), "classes": Counter(),
+                                        "rejections": Counter(), "timeouts": Counter(), "crashes": Counter(), "kf_hits": Counter(), "notes": Counter(),
+                                        "samples": [], "wall_s": 0.0,
+                                        "failures": [{"key": frec["key"], "msg": frec["msg"] + " [found by the coverage-guided campaign, not shrunk]",
+                                                      "case": frec["case"], "info": frec.get("info", {})}]})
+                for fi in fuzz_info.values():
+                    if isinstance(fi, dict) and "_h" in fi:
+                        fi["distinct_nontrivial"] = len(fi.pop("_h"))
+            finally:
+                shutil.rmtree(tmp, ignore_errors=True)
+
     # ---------------- merge ------------------------------------------
     tot = {"evaluations": 0, "calls": 0, "hook_events": 0}
     nontrivial = set()
@@ -236,6 +297,7 @@ def main():
         "known_findings_hit": dict(kf_hits),
         "known_finding_witnesses": witness_info,
         "hook_events": tot["hook_events"],
+        "coverage_guided": fuzz_info,
         "notes": dict(notes),
         "bounds": getattr(mod, "BOUNDS", {}),
         "violation_keys": sorted({v[0] for v in violations}),
